@@ -25,6 +25,20 @@ class _Final(ConvergenceController):
         S.status.__dict__['verif_final'] = (L.status.dt_new, bool(S.status.get('restart')))
 
 
+class _ScriptedEstimate(ConvergenceController):
+    """replaces the embedded error estimate of the k-th finished attempt by ratio[k] * e_tol (the estimator is scripted, Adaptivity,
+    the limiters and the restarting logic are the real ones)"""
+
+    def setup(self, controller, params, description, **kwargs):
+        return {'control_order': -51, 'ratios': (1.0,), 'e_tol': 1.0, **super().setup(controller, params, description, **kwargs)}
+
+    def post_iteration_processing(self, controller, S, **kwargs):
+        if S.status.iter >= S.params.maxiter:
+            k = getattr(self, '_k', 0)
+            S.levels[0].status.error_embedded_estimate = float(self.params.ratios[k % len(self.params.ratios)]) * self.params.e_tol
+            self._k = k + 1
+
+
 class _Log(Hooks):
     def __init__(self):
         super().__init__()
@@ -54,7 +68,7 @@ def run(case):
         from pySDC.implementations.problem_classes.TestEquation_0D import testequation0d
         pc, pp = testequation0d, dict(lambdas=np.array([-5.0 + 10j, -1.0]), u0=1.0)
     ad = dict(e_tol=case['e_tol'])
-    for k in ('dt_min', 'dt_max', 'dt_slope_min', 'dt_slope_max', 'beta'):
+    for k in ('dt_min', 'dt_max', 'dt_slope_min', 'dt_slope_max', 'dt_rel_min_slope', 'beta'):
         if k in case:
             ad[k] = case[k]
     desc = dict(problem_class=pc, problem_params=pp, sweeper_class=generic_implicit,
@@ -63,6 +77,8 @@ def run(case):
                 convergence_controllers={Adaptivity: ad, _RawProposal: {}, _Final: {},
                                          BasicRestartingNonMPI: dict(max_restarts=case.get('max_restarts', 10),
                                                                      crash_after_max_restarts=case.get('crash', True))})
+    if case.get('script'):
+        desc['convergence_controllers'][_ScriptedEstimate] = dict(ratios=tuple(case['script']), e_tol=case['e_tol'])
     c = controller_nonMPI(num_procs=1, controller_params=dict(logger_level=50, dump_setup=False, hook_class=[_Log], mssdc_jac=False),
                           description=desc)
     for S in c.MS:
@@ -96,6 +112,8 @@ def run(case):
                 lower = True
             elif exp / a['dt'] > smax:
                 exp = a['dt'] * smax
+            elif abs(exp / a['dt'] - 1) < case.get('dt_rel_min_slope', 0) and not a['final'][1]:
+                exp = a['dt']  # change too small to bother -- only for steps that are NOT restarted
             if 'dt_min' in case or 'dt_max' in case:
                 if exp < case.get('dt_min', 0):
                     exp = case.get('dt_min', 0)
@@ -106,6 +124,6 @@ def run(case):
         dtn = fin if fin is not None else a['dt']
         out.append(dict(t=rank[a['t']], e=rank[a['t'] + a['dt']], dt=rank[a['dt']], dtnew=rank.get(dtn, 0), restart=bool(a['restart']), riar=int(a['riar']),
                         est_lt_tol=bool(e_est is not None and e_est < e_tol), formula_ok=formula_ok, clip_ok=clip_ok,
-                        lower_limit_binds=bool(lower or (fin is not None and fin >= a['dt'])), tend_binds=bool(a['t'] + a['dt'] + dtn > case['tend'] - 1e-12),
+                        lower_limit_binds=bool(lower), tend_binds=bool(a['t'] + a['dt'] + dtn > case['tend'] - 1e-12),
                         reaches_tend=bool(a['t'] + a['dt'] >= case['tend'] - 1e-9 * a['dt'])))
     return dict(exc=exc, att=out, max_restarts=case.get('max_restarts', 10), raw=[(a['t'], a['dt'], a['restart'], a['e_est']) for a in att[:6]])
